@@ -9,6 +9,8 @@ Streams (model `Wpull.Request` vs the real code in the repo under test):
            + CookieJarWrapper + DeFactoCookiePolicy + RedirectTracker over harness/fakenet.py, answering from
            generated redirect scripts; the bytes each fake server receives per hop vs the model's;
            the same through the REAL HTTPProxyConnectionPool (http chains): absolute-form target on EVERY hop
+  cookiefile  oracle only: BetterMozillaCookieJar.load on generated cookies.txt files (comments, '#HttpOnly_' lines, dotted and
+           host-only domains, session cookies): every cookie is stored under exactly the domain its line names
   app      oracle only: the REAL application (AppArgumentParser + Builder factory + ClientSetupTask + pipeline + URL table +
            processor) x cookie option sets {default, --save-cookies, --keep-session-cookies, --load-cookies, --no-cookies} x
            twin-host redirect chains (cookie provenance), and redirects with hostile Location values to a page with links
@@ -59,6 +61,21 @@ def gen_pairs(rng, hostile):
         kind, info = rc.parse_url(rc.gen_url(rng))
         if kind == 'url':
             pairs.append(('Referer', info.url))
+    if rng.random() < 0.12:
+        # header values above 1 KiB (a Cookie field of many cookies, a referrer with a long query): still ONE line each
+        n = rng.choice([1000, 1023, 1024, 1025, 1500, 2500, 4000])
+        style = rng.random()
+        if style < 0.4:
+            parts, size = [], 0
+            while size < n:
+                p = 'c%d=%s' % (len(parts), ''.join(rng.choice('abcdef0123456789') for _ in range(rng.randrange(20, 90))))
+                parts.append(p)
+                size += len(p) + 2
+            pairs.append(('Cookie', '; '.join(parts)))
+        elif style < 0.75:
+            pairs.append(('Referer', 'http://a.example/search?q=' + ''.join(rng.choice('abcxyz%20+&=') for _ in range(n))))
+        else:
+            pairs.append((rng.choice(['X-Long', 'User-Agent', 'Accept']), ' '.join('w%d' % rng.randrange(10 ** 6) for _ in range(n // 7))))
     return pairs
 
 
@@ -81,7 +98,16 @@ def check_head(ctx, case, data, info, full, pairs, where):
     if target.decode('latin-1') != want:
         ctx.fail('target-mismatch', where, case, 'target %r, URL %r' % (target, canon))
     hosts = [v for n, v in fields if n.lower() == 'host']
-    if any(n.lower() == 'host' for n, _ in pairs):
+    # one line per field, exactly the fields expected (no folding onto continuation lines, nothing added or lost)
+    given_host = any(n.lower() == 'host' for n, _ in pairs)
+    want_fields = sorted((n.lower(), v.encode('latin-1', 'replace').strip(b' \t\n\r\x0b\x0c').decode('latin-1')) for n, v in pairs)
+    got_fields = sorted((n.lower(), v) for n, v in fields if given_host or n.lower() != 'host')
+    if want_fields != got_fields:
+        extra = [f for f in got_fields if f not in want_fields][:3]
+        missing = [f for f in want_fields if f not in got_fields][:3]
+        ctx.fail('field-lines', where, case, 'the field lines on the wire are not the fields of the request: unexpected %r, missing %r'
+                 % ([(n, v[:80]) for n, v in extra], [(n, v[:80] + ('… (%d chars)' % len(v) if len(v) > 80 else '')) for n, v in missing]))
+    if given_host:
         return          # a Host field configured by the caller is left alone (not URL data)
     if len(hosts) != 1:
         ctx.fail('host-count', where, case, 'Host fields %r' % hosts)
@@ -337,7 +363,10 @@ def gen_script(rng, http_only=False):
         else:
             rep = {'status': rng.choice([301, 302, 303, 307, 307, 308, 308]), 'location': gen_location(rng, k, http_only)}
         rep['cookies'] = []
-        if rng.random() < 0.35:
+        if rng.random() < 0.06:
+            # many long cookies: the Cookie field of a later hop to this host exceeds 1 KiB (within the 4100-byte policy limit)
+            rep['cookies'] = [('big%d_%d=%s' % (k, j, ''.join(rng.choice('abcdef0123456789') for _ in range(60)))).encode() for j in range(rng.randrange(16, 30))]
+        elif rng.random() < 0.35:
             c = 'ck%d=v%d' % (k, rng.randrange(1000))
             d = rng.choice(['', '', '; Domain=.example', '; Domain=a.example', '; Domain=b.example', '; Domain=.a.example', '; Path=/', '; Secure', '; Domain=c.test'])
             rep['cookies'].append((c + d).encode())
@@ -396,7 +425,8 @@ def gen_chain_case(rng, proxy=False):
         use_jar = True
         max_redirects = 20
         code = lambda: rng.choice([301, 302, 303, 307, 308])
-        replies = [{'status': code(), 'location': ('http://%s/a' % h2).encode(), 'cookies': [b'ckT1=v%d' % rng.randrange(1000)], 'mode': 'resp'},
+        big = [('bigT_%d=%s' % (j, 'x' * 70)).encode() for j in range(18)] if rng.random() < 0.4 else []
+        replies = [{'status': code(), 'location': ('http://%s/a' % h2).encode(), 'cookies': [b'ckT1=v%d' % rng.randrange(1000)] + big, 'mode': 'resp'},
                    {'status': code(), 'location': ('http://%s/b' % h1).encode(), 'cookies': [b'ckT2=v%d' % rng.randrange(1000)], 'mode': 'resp'},
                    {'status': code(), 'location': ('//%s/c' % h2).encode(), 'cookies': [b'ckT3=v%d; Path=/' % rng.randrange(1000)], 'mode': 'resp'},
                    {'status': 200, 'location': None, 'cookies': [], 'mode': 'resp'}]
@@ -547,6 +577,93 @@ def check_session_case(ctx, case):
     ctx.sample({'stream': 'session', 'url': case['url'], 'statuses': codes, 'outcome': res['outcome'], 'hops': len(res['hops'])})
 
 
+# ------------------------------------------------------------------ Netscape cookie files (--load-cookies)
+HTTPONLY_HOSTS = [('login.a.example', 'ogin.a.example'), ('nytimes.test', 'imes.test'), ('portal.b.example', 'ortal.b.example'),
+                  ('typo.c.test', 'o.c.test'), ('pony.example', 'ony.example'), ('_tcp.b.example', 'cp.b.example'),
+                  ('lynx.a.example', 'x.a.example'), ('Host.c.test', 'ost.c.test')]
+
+
+def cookie_file_entitlement(text):
+    """cookie name -> (host, Domain attribute or None) as the FILE says, read independently of the loader:
+    '#HttpOnly_' is a literal prefix of the domain field (curl), other '#'/'$' lines and blank lines are comments"""
+    out = {}
+    for line in text.split('\n')[1:]:
+        if line.startswith('#HttpOnly_'):
+            line = line[len('#HttpOnly_'):]
+        elif line.strip().startswith(('#', '$')) or not line.strip():
+            continue
+        parts = line.split('\t')
+        if len(parts) != 7:
+            continue
+        domain, spec, path, secure, expires, name, value = parts
+        out[name] = (domain.lstrip('.') if spec == 'TRUE' else domain, domain if spec == 'TRUE' else None)
+    return out
+
+
+def gen_cookie_file(rng, hosts, uid):
+    """a cookies.txt: magic line, comments, blank and '$' lines, host-only and dotted domains, '#HttpOnly_' lines,
+    session cookies (expiry 0 or empty), persistent and expired ones; cookie names are unique"""
+    lines = [rng.choice(['# Netscape HTTP Cookie File', '# HTTP Cookie File', '# Netscape HTTP Cookie File'])]
+    lines += rng.sample(['# https://curl.se/docs/http-cookies.html', '# This file was generated by libcurl! Edit at your own risk.', '',
+                         '$Version=1', '#comment\twith\ttabs\tthat\tlooks\tlike\ta\tcookie', '# HttpOnly_ in a comment'], rng.randrange(0, 4))
+    n = 0
+    for h in hosts:
+        for _ in range(rng.randrange(1, 3)):
+            n += 1
+            httponly = rng.random() < 0.5
+            dotted = rng.random() < 0.3 and not h.startswith('[')
+            domain = ('.' + h) if dotted else h
+            exp = rng.choice(['0', '', '4102444800', '4102444800', '1'])
+            lines.append('%s%s\t%s\t/\t%s\t%s\tf%d_%d%s\tv%d' % ('#HttpOnly_' if httponly else '', domain, 'TRUE' if dotted else 'FALSE',
+                                                                rng.choice(['FALSE', 'FALSE', 'TRUE']) if False else 'FALSE', exp, uid, n,
+                                                                'H' if httponly else '', rng.randrange(10 ** 6)))
+    rng.shuffle(lines[1:])
+    return '\n'.join(lines) + '\n'
+
+
+def stream_cookiefile(ctx, rng, n):
+    """BetterMozillaCookieJar.load (what --load-cookies does) on generated files: every cookie in the jar is stored under
+    exactly the domain its line names"""
+    import os
+    import tempfile
+    import warnings
+    from wpull.cookie import BetterMozillaCookieJar
+    tmp = tempfile.mkdtemp(prefix='c16jar-')
+    try:
+        for i in range(n):
+            pairs = rng.sample(HTTPONLY_HOSTS, rng.randrange(1, 4))
+            hosts = [p[0] for p in pairs] + rng.sample(['a.example', 'sub.a.example', 'b.example', 'c.test', '10.0.0.5'], 2)
+            text = gen_cookie_file(rng, hosts, i)
+            want = cookie_file_entitlement(text)
+            path = os.path.join(tmp, 'c%d.txt' % i)
+            with open(path, 'w') as f:
+                f.write(text)
+            jar = BetterMozillaCookieJar()
+            case = {'stream': 'cookiefile', 'text': text}
+            with warnings.catch_warnings():
+                warnings.simplefilter('ignore')
+                try:
+                    jar.load(path, ignore_discard=True)
+                except Exception as e:
+                    ctx.fail('cookie-file-load', 'BetterMozillaCookieJar._really_load', case, 'loading raised %s' % type(e).__name__)
+                    continue
+            loaded = list(jar)
+            ctx.case(('cookiefile', text), tags=['cookiefile:loaded=%d' % min(len(loaded), 6),
+                                                 'cookiefile:httponly-lines' if '#HttpOnly_' in text else 'cookiefile:plain'])
+            for c in loaded:
+                ent = want.get(c.name)
+                if ent is None:
+                    ctx.fail('cross-host-cookie', 'BetterMozillaCookieJar._really_load', case, 'cookie %r in the jar is in no line of the file' % c.name)
+                    continue
+                file_domain = ent[1] if ent[1] else ent[0]
+                if c.domain.lower() != file_domain.lower():          # host names are case-insensitive
+                    ctx.fail('cross-host-cookie', 'BetterMozillaCookieJar._really_load', case,
+                             'cookie %r of the file line for %r is stored under domain %r: it will be sent to another host' % (c.name, file_domain, c.domain))
+    finally:
+        import shutil
+        shutil.rmtree(tmp, ignore_errors=True)
+
+
 # ------------------------------------------------------------------ the whole application (set-up code and table glue included)
 APP_TWINS = [('a.example', 'sub.a.example'), ('a.example', 'deep.sub.a.example:8080'), ('sub.a.example', 'a.example'),
              ('[2001:db8::2]', '[2001:db8::5]'), ('a.example', 'xa.example')]
@@ -598,6 +715,11 @@ def check_app_case(ctx, case):
                 if not bare.startswith('['):
                     f.write('.a.example\tTRUE\t/\tFALSE\t4102444800\tfileDomain\tv2\n')
             preload = {'fileHostOnly': (h1, None), 'fileDomain': ('a.example', '.a.example')}
+            if case.get('cookie_file'):
+                # a cookies.txt as curl / wget / browsers write them; what it entitles is read off its own lines
+                with open(jarfile, 'w') as f:
+                    f.write(case['cookie_file'])
+                preload = cookie_file_entitlement(case['cookie_file'])
             extra += ['--load-cookies', jarfile]
         if opt in ('save', 'save-keep', 'load-save'):
             extra += ['--save-cookies', os.path.join(tmp, 'out-cookies.txt')]
@@ -713,7 +835,7 @@ def check_app_case(ctx, case):
     ctx.sample({'stream': 'app', 'kind': case['kind'], 'cookies': opt, 'url': case['url'], 'requests': len(hops)})
 
 
-def gen_app_cases(rng, n_cookie, n_referer, n_auth=0, n_proxy=0):
+def gen_app_cases(rng, n_cookie, n_referer, n_auth=0, n_proxy=0, n_cookiefile=0):
     out = []
     for i in range(n_cookie):
         if i < 2 * len(APP_COOKIE_OPTIONS):
@@ -731,6 +853,17 @@ def gen_app_cases(rng, n_cookie, n_referer, n_auth=0, n_proxy=0):
                     'cookies': [b'ckT3=v%d; Domain=.a.example' % u] if 'a.example' in h1 and 'a.example' in h2 else [], 'mode': 'resp'},
                    {'status': 200, 'location': None, 'cookies': [], 'mode': 'resp'}]
         out.append({'stream': 'app', 'kind': 'cookies', 'cookies': opt, 'hosts': [h1, h2], 'url': 'http://%s/login' % h1, 'replies': replies})
+    for i in range(n_cookiefile):
+        # --load-cookies with a curl-style file: '#HttpOnly_' host-only session cookies; the truncated twin of the host is fetched too
+        full, trunc = HTTPONLY_HOSTS[i % len(HTTPONLY_HOSTS)]
+        text = gen_cookie_file(rng, [full, 'a.example'], 9000 + i)
+        text += '#HttpOnly_%s\tFALSE\t/\tFALSE\t0\tsessH%d\tsecret%d\n' % (full, i, rng.randrange(10 ** 6))
+        first, second = (trunc, full) if i % 2 == 0 else (full, trunc)
+        replies = [{'status': 302, 'location': ('http://%s/b' % second).encode(), 'cookies': [], 'mode': 'resp'},
+                   {'status': 302, 'location': ('http://%s/c' % first).encode(), 'cookies': [], 'mode': 'resp'},
+                   {'status': 200, 'mode': 'resp'}]
+        out.append({'stream': 'app', 'kind': 'cookies', 'cookies': rng.choice(['load', 'load-save']), 'hosts': [first, second],
+                    'url': 'http://%s/a' % first, 'replies': replies, 'cookie_file': text})
     for i in range(n_auth):
         # credentials in the start URL, a 307/308 (replayed copy of the request) to another origin, a 401 challenge there
         u = rng.randrange(1000)
@@ -807,6 +940,8 @@ def replay(ctx, case, kind=None, where=None):
         stream_referer(ctx, [case])
     elif s == 'app':
         check_app_case(ctx, case)
+    elif s == 'cookiefile':
+        stream_cookiefile(ctx, ctx.subrng('cookiefile-replay'), 60)
     elif s in ('title', 'auth', 'hostport'):
         stream_small(ctx, ctx.subrng('replay'), 50)
     else:
@@ -847,8 +982,9 @@ def run(ctx):
     srng = ctx.subrng('session')
     for _ in range(ctx.scale(600, 18000)):
         check_session_case(ctx, gen_chain_case(srng))
+    stream_cookiefile(ctx, ctx.subrng('cookiefile'), ctx.scale(150, 4000))
     arng = ctx.subrng('app')
-    for case in gen_app_cases(arng, ctx.scale(24, 400), ctx.scale(12, 200), ctx.scale(16, 300), ctx.scale(16, 300)):
+    for case in gen_app_cases(arng, ctx.scale(24, 400), ctx.scale(12, 200), ctx.scale(16, 300), ctx.scale(16, 300), ctx.scale(8, 120)):
         check_app_case(ctx, case)
     prng = ctx.subrng('session-proxy')
     for _ in range(ctx.scale(250, 6000)):
